@@ -121,10 +121,13 @@ def random_case(rng, idx, mmax):
         alts = [10 ** 12 + x for x in rng.sample(range(1000), m)]
     rng.shuffle(alts)
     kind = rng.choice(["soc", "soi", "toc", "toi", "toi", "toc"])
-    pattern = rng.choice(["none", "tied_pair", "unranked", "apart", "winner", "weak_winner", "cycle", "none"])
+    pattern = rng.choice(["none", "tied_pair", "unranked", "apart", "winner", "weak_winner", "cycle", "cycle", "none"])
     complete = kind in ("soc", "toc")
     p_tie = 0.0 if kind in ("soc", "soi") else rng.choice([0.2, 0.5, 0.8])
     nb = rng.randint(1, 6)
+    if pattern == "cycle":
+        nb = max(3, len(alts) - (1 if rng.random() < 0.3 else 0))
+    base, rot = None, 0
     big = rng.random() < 0.1
     x, y = alts[0], alts[1]
     pool = list(alts)
@@ -146,19 +149,27 @@ def random_case(rng, idx, mmax):
             else:
                 o = [o[0] + [x]] + o[1:]
         elif pattern == "cycle" and m >= 3:
-            z = alts[2]
-            rot = rng.choice([[x, y, z], [y, z, x], [z, x, y]])
-            rest = [a for a in pool if a not in (x, y, z)]
-            rng.shuffle(rest)
-            if not complete:
-                rest = rest[: rng.randint(0, len(rest))]
-            o = [[a] for a in rot] + [[a] for a in rest]
+            # rotations of one ranking of the pool: with equal multiplicities nobody is even a weak winner
+            if not orders:
+                base = list(pool)
+                rng.shuffle(base)
+                rot = 0
+            rot += 1
+            seq = base[rot % len(base):] + base[:rot % len(base)]
+            if not complete and rng.random() < 0.3:
+                seq = seq[: rng.randint(2, len(seq))]
+            o = [[seq[0]]]
+            for a in seq[1:]:
+                if p_tie > 0 and rng.random() < 0.15:
+                    o[-1].append(a)
+                else:
+                    o.append([a])
         else:
             o = rand_weak_order(rng, pool, p_tie, complete=complete)
         if o and o not in orders:
             orders.append(o)
-    if pattern == "cycle" and rng.random() < 0.5:
-        mult = [1] * len(orders)
+    if pattern == "cycle" and rng.random() < 0.7:
+        mult = [rng.choice([1, 1, 2, 3, 10 ** 12])] * len(orders)
     elif big:
         mult = [rng.choice([1, 10 ** 12, 10 ** 12 + 1, 2 ** 64]) for _ in orders]
     else:
